@@ -31,7 +31,7 @@ def native_check(thm, inputs, hooks=None):
     if hooks and hooks.get("setup"):
         hooks["setup"](env)
     try:
-        result = eval(thm.body, env)
+        result = eval(thm.options.get("native_body", thm.body), env)
         outcome = ("return", result, None)
     except BaseException as ex:  # noqa
         if isinstance(ex, (KeyboardInterrupt, SystemExit)):
